@@ -114,7 +114,8 @@ func (wal *WAL) OnStart() error {
 	size, err := wal.group.Head.Size()
 	if err != nil {
 		return err
-	} else if size == 0 {
+	} else if size == 0 && wal.group.MaxIndex() == 0 {
+		// a brand-new log; an empty head behind rotated files is not the start of height 1
 		wal.writeHeight(1)
 	}
 	_, err = wal.group.Start()
